@@ -134,7 +134,7 @@ class HeapMixin:
                 return VBound(v, attr)
             return self.any_getattr(v, attr)
         if isinstance(v, VCallback):
-            return VCallback(f"{v.name}.{attr}", v.spec.get(attr, {}) if isinstance(v.spec, dict) else {})
+            return VCallback(f"{v.name}.{attr}", self.cb_spec(f"{v.name}.{attr}", v.spec.get(attr, {}) if isinstance(v.spec, dict) else {}))
         raise E.Unsupported(f"getattr {v!r}.{attr}")
 
     def any_getattr(self, v, attr):
@@ -161,6 +161,26 @@ class HeapMixin:
         if isinstance(v, VNone):
             raise E.PyExc(VExc("AttributeError"), f"None.{attr} =")
         raise E.Unsupported(f"setattr on {v!r}")
+
+    def cb_spec(self, name, default=None):
+        """callback spec by (suffix of) its qualified name from the contract"""
+        if self.contract is not None:
+            cbs = self.contract.callbacks
+            if name in cbs:
+                return cbs[name]
+            best = None
+            for k, v in cbs.items():
+                if name.endswith("." + k) or name.endswith("#ret." + k.split(".")[-1]) and k.count(".") == 1 and name.split(".")[-1] == k.split(".")[-1] and False:
+                    best = v
+            if best is not None:
+                return best
+            # "worker.step" style keys match any callback value bound to a variable of that name
+            tail = name.split("#ret.")[-1] if "#ret." in name else None
+            if tail:
+                for k, v in cbs.items():
+                    if k.split(".")[-1] == tail and "." in k:
+                        return v
+        return default or {}
 
     def fire(self, event, *a):
         h = self.hooks.get(event)
